@@ -54,6 +54,11 @@ class KeyTheory:
         s = self.ne.get(a)
         if s is not None and b in s:
             return False
+        if s is not None and isinstance(b, int) and len(s) >= len(self.domain) - 1:
+            # domain exhaustion: every other valid code is excluded, so a == b is implied
+            if sum(1 for x in s if isinstance(x, int) and x in self.domain) >= len(self.domain) - 1:
+                self.assert_lit(a, b, True)     # implied; pin it so that the value is visible to canon()
+                return True
         if isinstance(b, str):
             s = self.ne.get(b)
             if s is not None and a in s:
